@@ -165,9 +165,11 @@ class World(object):
         np.random.set_state(g0)
         random.seed(aseed ^ 0xabcdef)  # perturb hidden state the result must not depend on
         random.random()
-        r2 = outcome(name, args, kw)
+        r2 = outcome(name, args, kw, **extra)  # same form of call both times (the np.random alias is not compared with the plain form)
         g2 = gstate()
         self.bump('raised_outcomes' if r1[0] == 'raised' else 'value_outcomes')
+        if alias:
+            self.bump('alias_seed_np_random_calls')
         if not same(r1, r2):
             self.violate('unseeded_not_function_of_global', '%s called without a seed twice from the same global generator state: %s vs %s' % (name, describe(r1), describe(r2)))
         elif not same_state(g1, g2):
@@ -217,6 +219,7 @@ FUNC_OPS = ('seeded_twice', 'int_vs_state', 'unseeded_function', 'reseed', 'seed
 
 def execute(case, mode):
     w = World()
+    registry.POOL_STATE.update(n=0, seed=case['seed'], out_of_order=0, calls=0)
     np.random.seed(case['seed'] & 0xffffffff)
     random.seed(case['seed'])
     w.sync()
@@ -257,6 +260,9 @@ def execute(case, mode):
            'states': ['%s:%s' % (o[0], o[1]) for o in case['ops'] if o[0] in FUNC_OPS]}
     for nm in set(names):
         res['probes']['fn:' + nm] = names.count(nm)
+    if registry.POOL_STATE['calls']:
+        res['probes']['pool_calls'] = registry.POOL_STATE['calls']
+        res['probes']['pool_tasks_interleaved_out_of_order'] = registry.POOL_STATE['out_of_order']
     if w.fail is not None:
         res['outcome'] = 'violation'
         res['vclass'], res['msg'] = w.fail
